@@ -117,7 +117,7 @@ func ruleC12e(c *Ctx) []*report.Result {
 		if p, ok := t.(*types.Pointer); ok && namedOf(p.Elem()) == tPP {
 			return true
 		}
-		return namedOf(t) == pkgRfmt+".restorer"
+		return namedOf(t) == restorerName
 	}
 	for _, fn := range c.P.ModuleFunctions() {
 		for _, b := range fn.Blocks {
@@ -577,7 +577,7 @@ func ruleC05e(c *Ctx) []*report.Result {
 	r := report.NewResult("C05.e", "the three detection routes (plain operand, reflect.Value operand, below the top level of reflection) each test, before the kind switch: the Safe wrapper, the Unsafe wrapper, RedactableString, RedactableBytes, the safe-type registry, SafeValue, and method dispatch; wrappers and redactables are tested before method dispatch on each route", 10)
 	pa := c.P.Func("internal/rfmt", "(*pp).printArg")
 	pv := c.P.Func("internal/rfmt", "(*pp).printValue")
-	hs := c.P.Func("internal/rfmt", "(*pp).handleSpecialValues")
+	hs := c.P.Func("internal/rfmt", "(*pp)."+specialFnName)
 	hm := c.P.Func("internal/rfmt", "(*pp).handleMethods")
 	if pa == nil || pv == nil || hs == nil || hm == nil {
 		r.Undecide("printArg / printValue / handleSpecialValues / handleMethods not found")
